@@ -1,3 +1,4 @@
+import FluentProofs.ConstTieSyntax
 import FluentProofs.SpecLex
 import FluentProofs.SpecDedent
 import FluentProofs.SpecFuel
